@@ -53,6 +53,9 @@ type Fault struct {
 }
 
 type Disk struct {
+	// NoReplaceRename: rename fails with EEXIST when the destination is an existing file
+	// (rename semantics differ between platforms; code that handles EEXIST is exercised this way).
+	NoReplaceRename bool
 	S    *sim.Sim
 	Base string // containment root (the store's base directory)
 
@@ -417,8 +420,13 @@ func (d *Disk) simple(op, p1, p2 string, mut bool, do func() error) error {
 
 func (d *Disk) Rename(a, b string) error {
 	return d.simple("rename", a, b, true, func() error {
-		if _, e := os.Lstat(b); e == nil {
+		if fi, e := os.Lstat(b); e == nil {
 			d.Probes["rename_over_existing"]++
+			if d.NoReplaceRename && !fi.IsDir() {
+				// a platform whose rename refuses to replace an existing file
+				d.Fired["platform.rename_refuses_to_replace"]++
+				return &os.LinkError{Op: "rename", Old: a, New: b, Err: syscall.EEXIST}
+			}
 		}
 		return os.Rename(a, b)
 	})
